@@ -14,7 +14,9 @@ Definition Sinv (t : ent) (w : world) : Prop :=
     /\ (~ In t (spawned w) -> n = O /\ alookup t (cbs w) = None).
 
 Lemma g_runs_kview w w' : kview w' = kview w -> g_runs w' = g_runs w.
-Proof. intros H. exact (f_equal snd H). Qed.
+Proof. intros H. exact (f_equal (fun x => fst (snd x)) H). Qed.
+Lemma g_oruns_kview w w' : kview w' = kview w -> g_oruns w' = g_oruns w.
+Proof. intros H. exact (f_equal (fun x => snd (snd x)) H). Qed.
 Lemma runs_app t a b : runs t (a ++ b) = runs t a ++ runs t b.
 Proof. unfold runs. apply flat_map_app. Qed.
 
@@ -27,7 +29,7 @@ Proof.
     split; [reflexivity|]. destruct HC as [E|E]; congruence.
 Qed.
 Lemma Sinv_views t w w' : kview w' = kview w -> oview w' = oview w -> Sinv t w -> Sinv t w'.
-Proof. intros HK HO. apply Sinv_stable; [exact (f_equal snd HK)|apply cb_stable_oview; exact HO]. Qed.
+Proof. intros HK HO. apply Sinv_stable; [exact (g_runs_kview _ _ HK)|apply cb_stable_oview; exact HO]. Qed.
 
 (* an update of the record that keeps both counters *)
 Lemma Sinv_cbs_upd t t0 cb0 cb1 w : alookup t0 (cbs w) = Some cb0 -> cb_runno cb1 = cb_runno cb0 -> cb_captured cb1 = cb_captured cb0 ->
@@ -112,12 +114,12 @@ Proof.
     + cbn [g_runs emit set]. rewrite (g_runs_kview _ _ (kview_despawn _ _)). exact (g_runs_kview _ _ (kview_drop_callback _ _)).
     + eapply cb_stable_trans; [apply cb_stable_drop_callback|]. eapply cb_stable_trans; [apply cb_stable_despawn|]. apply cb_stable_oview. reflexivity.
   - intros t0 w H. apply (Sinv_stable t w); [exact (g_runs_kview _ _ (kview_despawn _ _))|apply cb_stable_despawn|exact H].
-  - intros t0 cb b w H Hcb. unfold cb_bump. eapply Sinv_cbs_upd; [exact Hcb|reflexivity|reflexivity|exact H].
+  - intros t0 cb b w H Hcb _. unfold cb_bump. eapply Sinv_cbs_upd; [exact Hcb|reflexivity|reflexivity|exact H].
   - intros t0 tk w H. unfold once_finish. destruct (alookup t0 (cbs w)) as [cb'|] eqn:Ecb; [|exact H].
     apply (Sinv_stable t (w <| cbs := aupd t0 (mkCb (cb_once cb') (cb_runno cb') (cb_captured cb') true false) (cbs w) |>)); [reflexivity|apply cb_stable_oview; reflexivity|].
     eapply Sinv_cbs_upd; [exact Ecb|reflexivity|reflexivity|exact H].
   - (* the body: logs (r, c) = the stored counters (guard), then increments both *)
-    intros sd t0 r c w HG H. unfold body_guard in HG. apply andb_true_iff in HG. destruct HG as [_ HG].
+    intros sd t0 r c w HG H. unfold body_guard in HG. apply andb_true_iff in HG. destruct HG as [HG _]. apply andb_true_iff in HG. destruct HG as [_ HG].
     unfold state_ok_b in HG. destruct (alookup t0 (cbs w)) as [cb0|] eqn:Ecb; [|discriminate HG].
     apply andb_true_iff in HG. destruct HG as [Hr Hc]. apply N.eqb_eq in Hr, Hc.
     unfold body_begin.
@@ -146,7 +148,9 @@ End SSteps.
 
 Section SInit.
 Variable P : program.
-Lemma Sinv_init t : Sinv t (install_static P init_world).
+Lemma init_counts : g_runs (install_static P init_world) = []
+  /\ (forall t cb, alookup t (cbs (install_static P init_world)) = Some cb -> cb_runno cb = 0 /\ cb_captured cb = 0)
+  /\ (forall t, ~ In t (spawned (install_static P init_world)) -> alookup t (cbs (install_static P init_world)) = None).
 Proof.
   set (J := fun w : world => g_runs w = [] /\ (forall t cb, alookup t (cbs w) = Some cb -> cb_runno cb = 0 /\ cb_captured cb = 0)
                              /\ (forall t, ~ In t (spawned w) -> alookup t (cbs w) = None)).
@@ -160,9 +164,13 @@ Proof.
       rewrite alookup_aset_other in Hcb by exact Hne. eapply J2; eauto.
     - intros t0 Hn. rewrite Hc. rewrite Hs in Hn. destruct (N.eq_dec t0 s) as [->|Hne]; [exfalso; apply Hn; left; reflexivity|].
       rewrite alookup_aset_other by exact Hne. apply J3. intros Hin. apply Hn. right. exact Hin. }
-  destruct (Hgen (map snd (p_wr P) ++ map (fun x => fst (snd x)) (p_xr P)) init_world) as (J1 & J2 & J3).
-  { split; [reflexivity|]. split; [intros t0 cb Hcb; discriminate Hcb|reflexivity]. }
-  exists O. unfold install_static. rewrite J1. split; [reflexivity|]. split; [intros cb Hcb; apply (J2 _ _ Hcb)|].
+  apply (Hgen (map snd (p_wr P) ++ map (fun x => fst (snd x)) (p_xr P)) init_world).
+  split; [reflexivity|]. split; [intros t0 cb Hcb; discriminate Hcb|reflexivity].
+Qed.
+Lemma Sinv_init t : Sinv t (install_static P init_world).
+Proof.
+  destruct init_counts as (J1 & J2 & J3).
+  exists O. rewrite J1. split; [reflexivity|]. split; [intros cb Hcb; apply (J2 _ _ Hcb)|].
   intros Hn. split; [reflexivity|apply J3; exact Hn].
 Qed.
 
